@@ -51,7 +51,9 @@ reg("C04", level="proof", engine="E-TAB", technique=TECH_L0, design_ref="DESIGN.
     explanation="<Version as Ord>::cmp, partial_cmp, PartialEq::eq and Hash::hash are interpreted from MIR on every class "
                 "of (per-field order of the numeric components) x (emptiness / order of the prerelease lists) x (build "
                 "same / different) and compared with SemVer 2.0.0 §11; the derived impls of Identifier are interpreted on "
-                "all variant/order classes; the numeric classification closure of identifier() is tabulated.",
+                "all variant/order classes; the numeric classification closure of identifier() is tabulated. An implementation "
+                "that walks or slices the identifier lists instead of comparing them whole is tabulated on structured lists "
+                "(real lists of numeric identifier tokens: equal, strict prefix either way, first difference at each position).",
     level_text="Proof over a finite abstraction: the functions are loop-free and read their inputs only through same-field "
                "comparisons, emptiness/length-vs-0 and lexicographic list comparison (enforced by the interpreter), so the "
                "enumerated worlds cover all inputs. Total-order laws follow from the table being the lexicographic product.",
@@ -77,7 +79,9 @@ reg("C03", level="proof", engine="E-TAB", technique=TECH_L0, design_ref="DESIGN.
                 "atoms (order of the version against each bound, prerelease flags of version and bounds, per-field equality "
                 "of major/minor/patch) and compared with: within the bounds AND (release OR some bound is a prerelease of "
                 "the same tuple). Version comparisons are level-1 primitives (justified by C04); field reads are admitted "
-                "only as same-field equality tests and emptiness of the prerelease list.",
+                "only as same-field equality tests and emptiness of the prerelease list. R-SAT: Range::satisfies is interpreted "
+                "on one or two one-token alternatives (=t, >=t, <t) over every realisable gate valuation of (version, t1, t2) and "
+                "must be the OR of each alternative's own bounds-and-gate answer (a tag in one alternative never opens another).",
     level_text="Proof over a finite abstraction of the single-interval gate. That the two surviving bounds of an alternative "
                "suffice (npm looks at every comparator) rests on the convexity lemma (DESIGN §5 C03) plus C02/C07; the -0 "
                "upper bounds are part of the C01 desugaring table.",
@@ -91,7 +95,9 @@ reg("C14", level="proof", engine="E-TAB", technique=TECH_TAB + " (slices of boun
     explanation="max_satisfying / min_satisfying are interpreted from MIR (iterator adaptors modelled as documented) on slices "
                 "of length 0..3 (thorough 0..4) x every weak ordering of the elements x every pattern of satisfies answers; "
                 "the result must be None iff nothing satisfies, else a reference into the slice to a satisfying element that "
-                "is extreme among the satisfying ones.",
+                "is extreme among the satisfying ones. Two further tiers decide implementations the opaque tier cannot read: "
+                "structured element versions with a satisfies bit per element, and real ranges (1-2 alternatives over a small "
+                "universe of bound versions, real satisfies) with the checker's model of satisfaction as reference.",
     level_text="Proof over a finite abstraction for slices up to the stated length (the functions treat elements uniformly); "
                "never selecting an unadmitted prerelease follows because the only filter is Range::satisfies (C03).",
     level_note="Trusted: rustc MIR, interpreter, models of slice::iter / Iterator::filter / max / min, C04. Bounded by slice length.",
